@@ -466,7 +466,7 @@ def rule_timeout_nocatch(cx, tier):
             if c.short == VM + "pop_call_stack_on_error":
                 sites.append((fn, c))
     require(sites, "R-TIMEOUT-NOCATCH: no call of pop_call_stack_on_error")
-    r.floor("pop_call_stack_on_error call sites", len(sites), 2)
+    r.floor("pop_call_stack_on_error call sites", len(sites), 1)
     callee = cx.need_fn(VM + "pop_call_stack_on_error")
     callee_guards = _tests_timeout_kind(cx, callee)
     # inside the unwinder: the exit that resumes at a catch handler (the Ok return) must be guarded by a bool
@@ -1136,4 +1136,50 @@ def rule_resolve_order(cx, tier):
         r.add(Finding("R-RESOLVE-ORDER", fn.qual, "order", "the directory candidate (`name/main.koto`) is not tested only "
                       "after the file candidate (`name.koto`) was found missing", fn.file, d0.line))
     r.sample({"fn": fn.qual, "file_test_line": f0.line, "dir_test_line": d0.line, "ok": ok})
+    return r
+
+
+# ---------------------------------------------------------------------------------------------
+# R-UNWIND-ALL (C07, C08): every error leaves the interpreter loop through the unwinder
+
+def rule_unwind_all(cx, tier):
+    r = RuleResult("R-UNWIND-ALL", "every error that execute_instructions returns has passed pop_call_stack_on_error: the "
+                                   "unwinder is what pops the frames (and their registers) of the failed run down to the "
+                                   "barrier frame, so an error returned around it leaves frames of the failed run on the "
+                                   "call stack of the runtime (or lets a timed-out generator be resumed)")
+    from ..mir import _block_ret_class
+    fn = cx.need_fn(VM + "execute_instructions")
+    cfg = cx.cfg(fn)
+    unw = {c.bb for c in fn.calls() if c.short == VM + "pop_call_stack_on_error"}
+    require(unw, "R-UNWIND-ALL: no call of pop_call_stack_on_error in execute_instructions")
+    # blocks that write an error into the return place
+    err_writes = []
+    for b in fn.blocks:
+        if b.cleanup or b.idx not in cfg.reach:
+            continue
+        cls = _block_ret_class(fn, b.idx)
+        if cls is None:
+            continue
+        if cls == "err":
+            err_writes.append(b.idx)
+        elif cls.startswith("call:"):
+            t = cx.F.fns.get(cls[5:])
+            if t is not None and always_err(cx, t):
+                err_writes.append(b.idx)
+            elif "from_residual" in cls:
+                err_writes.append(b.idx)
+    r.analysed = {"unwinder_calls": len(unw), "blocks_writing_an_error_result": len(err_writes)}
+    r.floor("blocks writing an error result in execute_instructions", len(err_writes), 1)
+    for wb in err_writes:
+        r.instances += 1
+        r.nontrivial += 1
+        p = cfg.find_path(0, lambda b: b == wb, avoid=unw, include_src_succs=False)
+        r.sample({"error_written_at_line": line_of(fn, wb), "through_unwinder": p is None})
+        if p is not None:
+            # `map(..)` of the unwinder's own result is the unwinder's error: written in the block of the call itself
+            r.add(Finding("R-UNWIND-ALL", fn.qual, "error-exit-around-unwinder",
+                          "execute_instructions can return an error without calling pop_call_stack_on_error: the frames "
+                          "pushed by the failed run stay on the call stack (values are kept alive, register_base stays "
+                          "raised, a generator that timed out can be resumed)", fn.file, line_of(fn, wb),
+                          [f"bb{b} {fn.file}:{line_of(fn, b)}" for b in p][-12:]))
     return r
